@@ -1,5 +1,5 @@
 (* C18 - With deduplication on, a message id is stored at most once per partition. *)
-From IggyV Require Import Base.Tactics Base.ListX Model.Part Model.PartSpec Proofs.PartBasics.
+From IggyV Require Import Base.Tactics Base.ListX Model.Part Model.PartSpec Proofs.PartBasics Proofs.PartHistory Proofs.DedupHistory.
 Open Scope N_scope.
 
 Definition C18_full : Prop := forall c t0 ops, model_check c t0 ops = 0.
@@ -37,7 +37,20 @@ Proof. exact append_spec. Qed.
 Theorem C18_off_keeps_all : forall c p ms, c_dedup c = false -> kept_of c p ms = ms.
 Proof. intros c p ms H. unfold kept_of. rewrite H. reflexivity. Qed.
 
+(* PROVED, history level, NO side condition: with deduplication on, after ANY history of operations (sends with arbitrary repeated
+   ids, flushes, saves, restarts - where the known ids are rebuilt from the files -, purges, expiry- and size-based retention,
+   eviction, polls, offset operations, setting changes) no message id is stored twice in the partition, and every stored id
+   is known to the deduplicator (so a later re-send of it is dropped). *)
+Theorem C18_history : forall ops c t0, c_dedup c = true ->
+  let p := snd (pfinal (c, part_new c t0) ops) in
+  NoDup (map m_id (part_all p)) /\ forall m, In m (part_all p) -> In (m_id m) (p_seen p).
+Proof.
+  intros ops c t0 Hd. cbn zeta. pose proof (history_D ops c (part_new c t0) Hd (D_new c t0)) as HD.
+  split; [apply (d_nodup _ HD) | apply (d_seen _ HD)].
+Qed.
+
 Print Assumptions C18_dedup.
 Print Assumptions C18_first_kept.
 Print Assumptions C18_no_offset_consumed.
 Print Assumptions C18_off_keeps_all.
+Print Assumptions C18_history.
